@@ -379,19 +379,25 @@ Section Proofs.
     eapply add_block_committed; eauto.
   Qed.
 
-  (** ** Well-formed ledgers: the stored headers are those of the chain below the tip *)
-  Definition wf (st : ledger) : Prop :=
-    hdr_cache st = [] /\
+  (** ** Well-formed ledgers: the stored headers are those of the chain below the tip, and the
+      header cache (header-first sync) only holds headers above the tip *)
+  Definition cache_above_tip (st : ledger) : Prop :=
+    forall h hd, assoc (hdr_cache st) h = Some hd -> cur_height st < hd_height hd /\ hd_height hd < u32.
+  Definition wf_store (st : ledger) : Prop :=
     forall h hd, block_store_header st h = Some hd ->
       hd_height hd <= cur_height st /\ (hd_height hd = cur_height st -> h = cur_hash st).
+  Definition wf (st : ledger) : Prop := cache_above_tip st /\ wf_store st.
 
   Lemma passed_add_prev_is_tip st b sroot ex :
     wf st -> passed_add st b sroot ex -> hd_prev (b_hdr b) = cur_hash st.
   Proof.
     intros [Hc Hs] (Hh & Hb & (prev & Hp & Hn & _) & _).
-    unfold get_header_by_hash in Hp. rewrite Hc in Hp. simpl in Hp.
-    destruct (Hs _ _ Hp) as [Hle Heq]. apply Heq.
-    unfold next_height, u32 in *. lia.
+    unfold get_header_by_hash in Hp.
+    destruct (assoc (hdr_cache st) (hd_prev (b_hdr b))) as [pc|] eqn:Ec.
+    - inversion Hp; subst. destruct (Hc _ _ Ec) as [H1 H2]. exfalso.
+      unfold next_height, u32 in *. lia.
+    - destruct (Hs _ _ Hp) as [Hle Heq]. apply Heq.
+      unfold next_height, u32 in *. lia.
   Qed.
 
   Lemma assoc_filter_other {B} (l : list (N * B)) k k' :
@@ -435,59 +441,118 @@ Section Proofs.
   Qed.
 
   Lemma submit_block_wf st b r st' :
-    wf st ->
+    wf_store st ->
     (forall h hd, block_store_header st h = Some hd -> hd_height hd < hd_height (b_hdr b)) ->
-    submit_block st b r = (st', Added) -> wf st'.
+    submit_block st b r = (st', Added) -> wf_store st'.
   Proof.
-    intros [Hc Hs] Hlt H. destruct (submit_block_headers _ _ _ _ H) as (Hc' & Hh & Hx & Hall).
-    split; [rewrite Hc'; exact Hc|].
+    intros Hs Hlt H. destruct (submit_block_headers _ _ _ _ H) as (Hc' & Hh & Hx & Hall).
     intros h hd Hg. destruct (Hall _ _ Hg) as [[-> ->]|Hold].
     - rewrite Hh, Hx. split; [lia|reflexivity].
     - specialize (Hlt _ _ Hold). rewrite Hh. split; [lia|]. intro; lia.
   Qed.
 
-  Lemma del_header_cache_wf st h : wf st -> wf (del_header_cache st h).
-  Proof. intros [Hc Hs]. split; [simpl; rewrite Hc; reflexivity|exact Hs]. Qed.
+  Lemma assoc_filter_some {B} (l : list (N * B)) k k' v :
+    assoc (filter (fun e => negb (fst e =? k)) l) k' = Some v -> k' <> k /\ assoc l k' = Some v.
+  Proof.
+    induction l as [|[a x] l IH]; simpl; [discriminate|].
+    destruct (a =? k) eqn:E; simpl.
+    - intro H. destruct (IH H) as [Hn Ha]. split; [exact Hn|].
+      apply N.eqb_eq in E; subst a. destruct (k =? k') eqn:E2; [apply N.eqb_eq in E2; congruence|exact Ha].
+    - destruct (a =? k') eqn:E2; [|exact IH].
+      intro H. split; [|exact H]. apply N.eqb_eq in E2; subst. intro; subst. rewrite N.eqb_refl in E; discriminate.
+  Qed.
+
+  (** Adding a block keeps the ledger well-formed provided the header cache holds, at the new
+      height, nothing but (possibly) the header of the added block itself. *)
+  Definition cache_clear_of (st : ledger) (b : block) : Prop :=
+    forall h hd, assoc (hdr_cache st) h = Some hd -> h = hd_hash (b_hdr b) \/ hd_height (b_hdr b) < hd_height hd.
 
   Lemma add_block_wf st b sroot ex st' o :
-    wf st -> add_block st b sroot ex = (st', o) -> ~ io_error o -> wf st'.
+    wf st -> add_block st b sroot ex = (st', o) -> ~ io_error o ->
+    (o = Added -> cache_clear_of st b) -> wf st'.
   Proof.
-    intros Hwf H Hnio. destruct o as [| |e].
+    intros Hwf H Hnio Hcc. destruct o as [| |e].
     - (* Added *)
+      specialize (Hcc eq_refl).
       unfold AddBlock.add_block in H.
       destruct (hd_height (b_hdr b) <=? cur_height st) eqn:E0; [discriminate|].
       destruct (negb (hd_height (b_hdr b) =? next_height (cur_height st))); [discriminate|].
       destruct (verify_header st (b_hdr b)); [discriminate|].
       destruct (save_block st b sroot ex) as [st1 o1] eqn:Es.
-      destruct o1; inversion H; subst. apply del_header_cache_wf.
+      destruct o1; inversion H; subst.
       unfold AddBlock.save_block in Es.
       destruct ((0 <? hd_height (b_hdr b)) && (hd_height (b_hdr b) <=? cur_height st)); [discriminate|].
       destruct ((0 <? hd_height (b_hdr b)) && negb (hd_height (b_hdr b) =? next_height (cur_height st))); [discriminate|].
       destruct ex as [r|]; [|discriminate].
       destruct (negb _ && negb (r_merkle r =? sroot)); [discriminate|].
-      eapply submit_block_wf; eauto. apply N.leb_gt in E0.
-      intros h hd Hg. destruct Hwf as [_ Hs]. destruct (Hs _ _ Hg) as [Hle _]. lia.
+      apply N.leb_gt in E0. destruct Hwf as [Hc Hs].
+      destruct (submit_block_headers _ _ _ _ Es) as (Hc' & Hh & Hx & _).
+      split.
+      + intros h hd Ha. simpl in Ha. apply assoc_filter_some in Ha. destruct Ha as [Hne Ha].
+        rewrite Hc' in Ha. simpl. rewrite Hh.
+        destruct (Hc _ _ Ha) as [_ Hu]. destruct (Hcc _ _ Ha) as [->|Hlt]; [contradiction|]. split; assumption.
+      + assert (Hs1 : wf_store st1).
+        { eapply submit_block_wf; eauto. intros h hd Hg. destruct (Hs _ _ Hg) as [Hle _]. lia. }
+        exact Hs1.
     - assert (st' = st) by (eapply add_block_unchanged; [exact H|discriminate|intros [s X]; discriminate]).
       subst; exact Hwf.
     - assert (st' = st) by (eapply add_block_unchanged; [exact H|discriminate|exact Hnio]).
       subst; exact Hwf.
   Qed.
 
-  Lemma wf_empty : wf empty_ledger.
-  Proof. split; [reflexivity|]. intros h hd; unfold block_store_header; simpl; discriminate. Qed.
+  Lemma cache_clear_of_nil st b : hdr_cache st = [] -> cache_clear_of st b.
+  Proof. intros H h hd Ha. rewrite H in Ha. discriminate. Qed.
 
-  Lemma init_genesis_wf g r st : init_genesis mroot io g r = (st, Added) -> wf st.
+  Lemma wf_empty : wf empty_ledger.
+  Proof.
+    split; [intros h hd; simpl; discriminate|].
+    intros h hd; unfold block_store_header; simpl; discriminate.
+  Qed.
+
+  Lemma init_genesis_wf g r st : init_genesis mroot io g r = (st, Added) -> wf st /\ hdr_cache st = [].
   Proof.
     unfold init_genesis. destruct (submit_block empty_ledger g r) as [st0 o0] eqn:Es.
     destruct o0; intro H; inversion H; subst; clear H.
-    assert (Hw : wf st0).
+    destruct (submit_block_headers _ _ _ _ Es) as (Hc' & _).
+    assert (Hs : wf_store st0).
     { eapply submit_block_wf; [apply wf_empty| |exact Es].
       intros h hd; unfold block_store_header; simpl; discriminate. }
-    destruct Hw as [Hc Hs]. split; [exact Hc|].
-    intros h hd Hg. apply Hs. unfold block_store_header in *. cbn [blk_cache bstore] in Hg.
-    destruct (assoc (blk_cache st0) h); [exact Hg|].
-    rewrite db_get_put_other in Hg by discriminate. exact Hg.
+    simpl in Hc'. split; [split|exact Hc'].
+    - intros h hd Ha. simpl in Ha. rewrite Hc' in Ha. discriminate.
+    - intros h hd Hg. apply Hs. unfold block_store_header in *. cbn [blk_cache bstore] in Hg.
+      destruct (assoc (blk_cache st0) h); [exact Hg|].
+      rewrite db_get_put_other in Hg by discriminate. exact Hg.
   Qed.
+
+  (** *** AddHeader *)
+  Lemma add_header_unchanged st hd st' e : add_header bk_addr st hd = (st', Some e) -> st' = st.
+  Proof.
+    unfold add_header. destruct (negb _); [intro H; inversion H; reflexivity|].
+    destruct (verify_header st hd); intro H; inversion H; reflexivity.
+  Qed.
+
+  Lemma add_header_accepted st hd st' :
+    add_header bk_addr st hd = (st', None) ->
+    hd_height hd = next_height (current_header_height st) /\ verify_header st hd = None /\
+    st' = set_header_index (add_header_cache st hd) (hd_height hd) (hd_hash hd).
+  Proof.
+    unfold add_header. destruct (hd_height hd =? next_height (current_header_height st)) eqn:E; simpl; [|discriminate].
+    destruct (verify_header st hd) eqn:Ev; intro H; inversion H. apply N.eqb_eq in E. auto.
+  Qed.
+
+  Lemma add_header_wf st hd st' :
+    wf st -> add_header bk_addr st hd = (st', None) -> cur_height st < hd_height hd -> wf st'.
+  Proof.
+    intros [Hc Hs] H Hlt. destruct (add_header_accepted _ _ _ H) as (Hh & Hv & ->).
+    split.
+    - intros h x Ha. simpl in Ha.
+      destruct (hd_hash hd =? h) eqn:E.
+      + inversion Ha; subst x. simpl. split; [exact Hlt|].
+        rewrite Hh. unfold next_height, u32. apply N.mod_lt. discriminate.
+      + apply assoc_filter_some in Ha. destruct Ha as [_ Ha]. exact (Hc _ _ Ha).
+    - exact Hs.
+  Qed.
+
 
   Lemma add_block_ignored st b sroot ex st' :
     add_block st b sroot ex = (st', Ignored) -> hd_height (b_hdr b) <= cur_height st.
@@ -568,6 +633,58 @@ Section Proofs.
       destruct (hd_time hd <=? hd_time prev); [tauto|].
       destruct (address_from_bookkeepers bk_addr (hd_keys hd)) as [a|]; [|tauto].
       destruct (negb (hd_nextbk prev =? a)); tauto.
+  Qed.
+
+  (** ** The header cache does not decide acceptance
+      verifyHeader is run in full by AddBlock whether or not the header (or any header with the
+      same hash) was accepted earlier by AddHeader; the only thing it reads from the cache is the
+      predecessor looked up by [hd_prev]. *)
+  Lemma verify_header_cache st c hd :
+    assoc c (hd_prev hd) = assoc (hdr_cache st) (hd_prev hd) ->
+    verify_header (set_hdr_cache st c) hd = verify_header st hd.
+  Proof.
+    intro H. unfold AddBlock.verify_header, get_header_by_hash. simpl. rewrite H. reflexivity.
+  Qed.
+
+  Lemma submit_block_cache st c b r :
+    submit_block (set_hdr_cache st c) b r =
+    (set_hdr_cache (fst (submit_block st b r)) c, snd (submit_block st b r)).
+  Proof.
+    unfold AddBlock.submit_block, save_block_to_state_store.
+    change (block_root_with_new mroot (set_hdr_cache st c)) with (block_root_with_new mroot st).
+    destruct (negb (hd_height (b_hdr b) =? 0) && negb (_ =? hd_blockroot (b_hdr b))); [reflexivity|].
+    destruct (negb (io IoNotify)); [reflexivity|].
+    destruct (negb (io IoCommitBlock)); [reflexivity|].
+    destruct (negb (io IoCommitEvent)); [reflexivity|].
+    destruct (negb (io IoCommitState)); reflexivity.
+  Qed.
+
+  Lemma save_block_cache st c b sroot ex :
+    save_block (set_hdr_cache st c) b sroot ex =
+    (set_hdr_cache (fst (save_block st b sroot ex)) c, snd (save_block st b sroot ex)).
+  Proof.
+    unfold AddBlock.save_block. cbn [cur_height set_hdr_cache].
+    destruct ((0 <? hd_height (b_hdr b)) && (hd_height (b_hdr b) <=? cur_height st)); [reflexivity|].
+    destruct ((0 <? hd_height (b_hdr b)) && negb (hd_height (b_hdr b) =? next_height (cur_height st))); [reflexivity|].
+    destruct ex as [r|]; [|reflexivity].
+    destruct (negb _ && negb (r_merkle r =? sroot)); [reflexivity|].
+    apply submit_block_cache.
+  Qed.
+
+  Lemma header_cache_irrelevant st c b sroot ex st1 o1 :
+    assoc c (hd_prev (b_hdr b)) = assoc (hdr_cache st) (hd_prev (b_hdr b)) ->
+    add_block st b sroot ex = (st1, o1) ->
+    exists st2, add_block (set_hdr_cache st c) b sroot ex = (st2, o1) /\
+                set_hdr_cache st2 [] = set_hdr_cache st1 [].
+  Proof.
+    intros Hc. unfold AddBlock.add_block. cbn [cur_height set_hdr_cache].
+    rewrite (verify_header_cache _ _ _ Hc).
+    destruct (hd_height (b_hdr b) <=? cur_height st); [intro H; inversion H; subst; eexists; split; reflexivity|].
+    destruct (negb (hd_height (b_hdr b) =? next_height (cur_height st))); [intro H; inversion H; subst; eexists; split; reflexivity|].
+    destruct (verify_header st (b_hdr b)); [intro H; inversion H; subst; eexists; split; reflexivity|].
+    rewrite save_block_cache.
+    destruct (save_block st b sroot ex) as [sx ox]. simpl.
+    destruct ox; intro H; inversion H; subst; eexists; split; reflexivity.
   Qed.
 
   (** ** Late I/O failure: not atomic (outside the property; recorded precisely) *)
